@@ -71,6 +71,7 @@ Tag(n) == IF n < 26 THEN 65 + n ELSE 48 + (n % 10)
 TextOf(name, n) ==
     CASE name = "e"    -> <<>>
       [] name = "nl"   -> <<NL>>
+      [] name = "same" -> <<35, 35>>                                              \* the same text every time ("##"): repeated log lines
       [] name = "T"    -> <<Tag(n)>>
       [] name = "TW"   -> <<Tag(n)>> \o Run(W - 1, 97)
       [] name = "TW1"  -> <<Tag(n)>> \o Run(W, 97)
